@@ -180,6 +180,49 @@ reg("C20", BE + "every split of a base grammar over 2-3 files (chain, fan-out, "
     "trusted: flattened grammar through parglare (validated by C01/C04) and "
     "the chart", "DESIGN.md section 8 C20")
 
+# families added after seeded faults were missed (DESIGN.md section 0)
+ADD = {
+    "C02": " Also the space r4 (one production with four right-hand-side "
+           "symbols + up to two short ones over one terminal).",
+    "C03": " Also: reading (counting, indexing, iterating, get_first_tree) "
+           "must not change the forest; forests of a parser with an "
+           "accept-all dynamic filter.",
+    "C05": " Also a template family of 912 grammars around the "
+           "LR(1)-but-not-LALR(1) core (same-kernel states that must stay "
+           "apart, nullable tails), and tables built on one shared Grammar "
+           "object in both orders.",
+    "C06": " Also tables=SLR for up to 3 operators, zero-based priorities, "
+           "rule-level and production-level meta-data mixed.",
+    "C09": " Also rules defined in two parts, @action decorators on rules "
+           "with groups/repetitions, and the tree route on a parser with an "
+           "accept-all dynamic filter.",
+    "C10": " Also a LAYOUT-rule family (block comments parsed token by "
+           "token) against the language with the layout written out.",
+    "C11": " Also rows where the layout is given by a LAYOUT rule.",
+    "C12": " Six grammar sets (import chain, lexical overlap, .pge hints, "
+           "LAYOUT rule).",
+    "C13": " Also all pairs of repetitions over the same base, and group "
+           "shapes under a rule decorator.",
+    "C14": " Also ws sets of regex-special characters, construction-outcome "
+           "comparison, and the comment LAYOUT with terminal priorities.",
+    "C15": " Now 25 events and four grammars (lexical overlap with a token "
+           "spanning a raising position; block comments that make the LAYOUT "
+           "sub-parser abort a parse); probes run in rotated order.",
+    "C16": " Also modular grammars with same-named terminals in two files, "
+           "and calculated vs cache-loaded forest order in every process.",
+    "C17": " Also a lexeme map with different terminal priorities and rows "
+           "with a pass-through custom_token_recognition.",
+    "C18": " Also a LAYOUT-rule variant, {dynamic} on the rule level, marks "
+           "on the atom production, an LR reject family.",
+    "C19": " Upper-case letter in the text alphabet; two-string keyword family.",
+    "C20": " Also dotted import paths, override x repetition, and a family of "
+           "hand-flattened special cases (root-level KEYWORD / LAYOUT, "
+           "same-named terminals in two modules, re_flags / ignore_case).",
+}
+for _pid, _txt in ADD.items():
+    _t = REG[_pid]
+    REG[_pid] = (_t[0], _t[1] + _txt, _t[2], _t[3])
+
 NOT_YET = "check not built yet in this round (planned, see DESIGN.md section 8/12)"
 
 checks = []
